@@ -10,7 +10,7 @@ ELEMENTWISE_UNARY = {
     'rad2deg', 'angle', 'real', 'imag', 'conj', 'conjugate', 'fix', 'rint', 'round', 'around',
     'isinf', 'isnan', 'isfinite', 'invert', 'logical_not', 'sign', 'arctan', 'arcsin', 'arccos',
 }
-ALIAS = {'conjugate': 'conj', 'absolute': 'abs', 'around': 'round', 'radians': 'deg2rad'}
+ALIAS = {'conjugate': 'conj', 'absolute': 'abs', 'around': 'round', 'radians': 'deg2rad', 'rint': 'round'}
 
 
 def is_vec(v):
@@ -484,6 +484,14 @@ def h_flatnonzero(ip, st, args, kw, node):
     return nf.index(app('nonzero', app('m:ravel', P(args[0]))), Poly.const(0))
 
 
+HANDLERS['numpy.multiply.outer'] = h_generic('outer')
+HANDLERS['numpy.add.outer'] = h_generic('add_outer')
+HANDLERS['numpy.subtract.outer'] = h_generic('sub_outer')
+HANDLERS['numpy.ravel'] = lambda ip, st, a, kw, node: app('m:ravel', P(a[0]))
+HANDLERS['numpy.reshape'] = lambda ip, st, a, kw, node: app('m:reshape', P(a[0]), *[x if isinstance(x, (Poly, Tup, Const, Slice)) else P(x) for x in a[1:]])
+for _n, _op in (('greater', 'gt'), ('greater_equal', 'ge'), ('less', 'lt'), ('less_equal', 'le'), ('equal', 'eq'),
+                ('not_equal', 'ne')):
+    HANDLERS['numpy.' + _n] = (lambda op: (lambda ip, st, a, kw, node: ip.compare(op, a[0], a[1])))(_op)
 HANDLERS['numpy.where'] = h_where
 HANDLERS['numpy.flatnonzero'] = h_flatnonzero
 HANDLERS['numpy.einsum'] = h_einsum
